@@ -68,6 +68,7 @@ struct Sock {
   std::string sent;
   std::string delivered;  // every byte recv() has handed to the library
   long recv_calls = 0, send_calls = 0, recv_after_cancel = 0;
+  bool blocking = false;  // the application left the descriptor in blocking mode (nothing in the network_* interface forbids it)
   // connect
   int conn = 0;  // 0 not a connecting socket, 1 in progress, 2 connected, 3 failed
   int64_t conn_at = 0;
@@ -111,6 +112,7 @@ struct Kernel {
   int new_conn_fd_for_accept = -1;
   std::vector<int> accepted_fds;
   void (*on_socket)(int fd) = nullptr;  // called for every descriptor returned by socket()
+  long would_block_calls = 0;  // recv() calls on a blocking-mode descriptor for which nothing had arrived
   void (*on_recv)(int fd, long nth) = nullptr;  // called at the start of every recv() on a simulated descriptor (a signal handler may run here)
 
   void reset() { *this = Kernel(); }
@@ -318,6 +320,9 @@ ssize_t __wrap_recv(int fd, void *buf, size_t len, int flags) {
     return -1;
   }
   if (s->in.empty() || s->in_at > k.now || s->sent.size() < s->in_hold_sent) {
+    // on a descriptor in blocking mode this call would put the whole process to sleep (nothing has arrived): the harness is told,
+    // and the call is answered with EAGAIN so that the run can go on
+    if (s->blocking) k.would_block_calls++;
     errno = EAGAIN;
     return -1;
   }
